@@ -1,3 +1,5 @@
+import Pds.Proofs.KernelTie.QfUnion
+import Pds.Proofs.KernelTie.Merge
 import Pds.Proofs.KernelTie.CuckooUnion
 /-!
 # C06 — tie by translation (flow mode): `CuckooFilter::union`
@@ -10,5 +12,28 @@ theorem cuckoo_union_translated {R : Type} (I : RngI R) (hash : List Nat → Nat
       match Cuckoo.union I hash kicks s o with
       | none => Flow.panic
       | some (s', r) => Flow.ret (resB r, (s'.table.toList, s'.n, s'.rng)) := cuckoo_union_eq I hash kicks s o hbs
+
+/-- `HyperLogLog::merge` as translated (`assert_eq!(b)`, registers zipped with `cmp::max`) is the model's `merge` -/
+theorem hll_merge_translated (s o : Hll.St) :
+    hll_merge s.b s.regs.toList o.b o.regs.toList =
+      match Hll.merge s o with
+      | none => Flow.panic
+      | some s' => Flow.cont s'.regs.toList := hll_merge_eq s o
+
+/-- `CountMinSketch::merge` as translated (both `assert_eq!`, cells zipped with `checked_add(..).unwrap()`) is the
+model's `merge` -/
+theorem cms_merge_translated (s o : Cms.St) :
+    cms_merge s.w s.d s.cmax s.table.toList o.w o.d o.table.toList =
+      match Cms.merge s o with
+      | none => Flow.panic
+      | some s' => Flow.cont s'.table.toList := cms_merge_eq s o
+
+/-- `QuotientFilter::union` as translated is the model's `union` -/
+theorem qf_union_translated {N : Nat} (qb rb : Nat) (t o : Quotient.St N) :
+    qf_union qb rb (occL t) (contL t) (shiftL t) (remL t) t.n qb rb (occL o) (contL o) (shiftL o) (remL o) =
+      match Quotient.union t o with
+      | none => Flow.panic
+      | some (t', .full) => Flow.ret (2, (occL t', contL t', shiftL t', remL t', t'.n))
+      | some (t', .ok _) => Flow.ret (1, (occL t', contL t', shiftL t', remL t', t'.n)) := qf_union_eq qb rb t o
 
 end Pds.Tie.C06
